@@ -735,6 +735,7 @@ func specUTF8Wanted(r *Reader, h ws.Header, st ws.State, op ws.OpCode) bool {
 //@   ensures  [chain] hdrAccepted(r, r.Source, old(inPos(r.Source)), old(r.State)) && !(old(r.State)&ws.StateFragmented != 0 && hdr.OpCode >= 8) ==> (hdr.Masked ==> r.cr != nil && r.cr.r == io.Reader(&r.raw) && r.cr.mask == hdr.Mask && r.cr.pos == 0) && (specUTF8Wanted(r, hdr, old(r.State), r.opCode) ==> r.frame == io.Reader(&r.utf8) && r.utf8.state == old(r.utf8.state) && r.utf8.Source == iteReader(hdr.Masked, io.Reader(r.cr), io.Reader(&r.raw))) && (!specUTF8Wanted(r, hdr, old(r.State), r.opCode) ==> r.frame == iteReader(hdr.Masked, io.Reader(r.cr), io.Reader(&r.raw)) && r.utf8.state == old(r.utf8.state))
 //@   ensures  [ctl]   hdrAccepted(r, r.Source, old(inPos(r.Source)), old(r.State)) && old(r.State)&ws.StateFragmented != 0 && hdr.OpCode >= 8 ==> r.State == old(r.State) && r.opCode == old(r.opCode) && r.utf8.state == old(r.utf8.state) && r.frame == old(r.frame) && (err == nil ==> r.raw.N == 0) && r.raw.R == r.Source
 //@   ensures  [mono]  inPos(r.Source) >= old(inPos(r.Source))
+//@   ensures  [cfg]   len(r.Extensions) == 0 && r.OnContinuation == nil && r.OnIntermediate == nil
 //@   ensures  [inv]   invReader(r) && streamOK(r.Source) && r.Source == old(r.Source) && r.CheckUTF8 == old(r.CheckUTF8)
 //@   assigns *r, *r.cr, stream(r.Source)
 //@   loop 1 invariant [hdr] hdr == ws.VSpecDecode(r.Source, old(inPos(r.Source))) && err == nil
@@ -786,5 +787,8 @@ func iteReader(c bool, a, b io.Reader) io.Reader {
 //@   ensures  [idle] idleReader(r) && r.Source == old(r.Source)
 //@   ensures  [whole] err == nil ==> r.State&ws.StateFragmented == 0
 //@   ensures  [cut]  err == nil ==> inEnd(r.Source)-old(inPos(r.Source)) >= int(old(r.raw.N))
-//@   loop 1 invariant [inv] invReader(r) && streamOK(r.Source) && r.raw.R == r.Source && r.Source == old(r.Source) && len(r.Extensions) == 0 && r.OnContinuation == nil && r.OnIntermediate == nil && err == nil
-//@   loop 1 invariant [pos] inPos(r.Source) >= old(inPos(r.Source))
+//@   loop 1 invariant [inv] invReader(r) && streamOK(r.Source)
+//@   loop 1 invariant [raw] r.raw.R == r.Source && r.Source == old(r.Source)
+//@   loop 1 invariant [cfg] len(r.Extensions) == 0 && r.OnContinuation == nil && r.OnIntermediate == nil
+//@   loop 1 invariant [err] err == nil
+//@   loop 1 invariant [first] (r.raw.N == old(r.raw.N) && inPos(r.Source) == old(inPos(r.Source))) || inEnd(r.Source)-old(inPos(r.Source)) >= int(old(r.raw.N))
